@@ -131,16 +131,20 @@ impl Core {
                 .get_parent_block(&parent)
                 .await?
                 .expect("We should have all the ancestors by now");
+            // Stop at the last committed block (or genesis): it was already delivered.
+            if ancestor.round <= self.last_committed_round {
+                break;
+            }
             to_commit.push_front(ancestor.clone());
             parent = ancestor;
         }
-        to_commit.push_front(block.clone());
+        to_commit.push_back(block.clone());
 
         // Save the last committed block.
         self.last_committed_round = block.round;
 
         // Send all the newly committed blocks to the node's application layer.
-        while let Some(block) = to_commit.pop_back() {
+        while let Some(block) = to_commit.pop_front() {
             if !block.payload.is_empty() {
                 info!("Committed {}", block);
 
@@ -213,7 +217,7 @@ impl Core {
         #[cfg(hotstuff_verif)]
         crate::verif::emit(crate::verif::Event::Begin {
             node: self.name,
-            input: crate::verif::Input::Vote { hash: vote.hash.clone(), round: vote.round, author: vote.author },
+            input: crate::verif::Input::Vote(vote.clone()),
         });
         if vote.round < self.round {
             return Ok(());
@@ -244,7 +248,7 @@ impl Core {
         #[cfg(hotstuff_verif)]
         crate::verif::emit(crate::verif::Event::Begin {
             node: self.name,
-            input: crate::verif::Input::Timeout { round: timeout.round, author: timeout.author, high_qc_round: timeout.high_qc.round },
+            input: crate::verif::Input::Timeout(timeout.clone()),
         });
         if timeout.round < self.round {
             return Ok(());
@@ -395,7 +399,7 @@ impl Core {
         #[cfg(hotstuff_verif)]
         crate::verif::emit(crate::verif::Event::Begin {
             node: self.name,
-            input: crate::verif::Input::Propose { digest: digest.clone(), round: block.round, author: block.author },
+            input: crate::verif::Input::Propose(block.clone()),
         });
 
         // Ensure the block proposer is the right leader for the round.
@@ -432,7 +436,7 @@ impl Core {
 
     async fn handle_tc(&mut self, tc: TC) -> ConsensusResult<()> {
         #[cfg(hotstuff_verif)]
-        crate::verif::emit(crate::verif::Event::Begin { node: self.name, input: crate::verif::Input::TC { round: tc.round } });
+        crate::verif::emit(crate::verif::Event::Begin { node: self.name, input: crate::verif::Input::TC(tc.clone()) });
         tc.verify(&self.committee)?;
         if tc.round < self.round {
             return Ok(());
